@@ -33,6 +33,11 @@ def ar_model(theta, N, seed):  # noqa: N803
     for t in range(1, N):
         x[t, 0] = a * x[t - 1, 0] + e[t, 0] + 0.1 * b
         x[t, 1] = 0.5 * x[t - 1, 1] + e[t, 1] * (1 + 0.1 * float(th[-1]))
+    if os.environ.get("VERIF_SCRIBBLE"):
+        try:
+            theta[...] = 0.0        # the model uses its argument as scratch space
+        except (ValueError, TypeError):
+            pass
     return x
 
 
@@ -73,9 +78,12 @@ def random_config(rng: random.Random, *, rl: bool = False, heavy: bool = True) -
     lo = [rng.choice([-1.0, 0.0, 0.5]) for _ in range(d)]
     bounds = [lo, [x + rng.choice([1.0, 2.0]) for x in lo]]
     prec = [rng.choice([0.01, 0.05, 0.001]) for _ in range(d)]
-    return {"lineup": lineup, "bounds": bounds, "prec": prec, "E": rng.randint(1, 3), "N": rng.choice([20, 30]),
-            "loss": rng.choice(LOSSES), "seed": rng.randrange(1, 2**31), "kind": "rl" if rl else "rr",
-            "eps": rng.choice([0.0, 0.3]) if rl else 0.0, "batches": rng.randint(len(lineup) + 1, 2 * len(lineup) + 2)}
+    cfg = {"lineup": lineup, "bounds": bounds, "prec": prec, "E": rng.randint(1, 3), "N": rng.choice([20, 30]),
+           "loss": rng.choice(LOSSES), "seed": rng.randrange(1, 2**31), "kind": "rl" if rl else "rr",
+           "eps": rng.choice([0.0, 0.3]) if rl else 0.0, "batches": rng.randint(len(lineup) + 1, 2 * len(lineup) + 2)}
+    cfg["scribble"] = rng.random() < 0.25       # a model that overwrites its parameter argument after use
+    cfg["stale"] = rng.random() < 0.3           # (C05) the saving folder already holds the checkpoint of some other calibration
+    return cfg
 
 
 def build(cfg: dict, *, njobs=1, verbose=False, folder=None, ctor_seeds=False):
@@ -127,6 +135,13 @@ def observe(cal, ret=None) -> list[dict]:
     return evs
 
 
+def _scribble_env(cfg: dict) -> None:
+    if cfg.get("scribble"):
+        os.environ["VERIF_SCRIBBLE"] = "1"
+    else:
+        os.environ.pop("VERIF_SCRIBBLE", None)
+
+
 def run_variant(cfg: dict, axes: dict) -> list[dict]:
     """one execution of cfg under the given irrelevant axes (C01)"""
     from .common import quiet
@@ -136,13 +151,18 @@ def run_variant(cfg: dict, axes: dict) -> list[dict]:
         os.environ["VERIF_SLOW_MODEL"] = "1"       # (inherited by the worker processes started for this variant)
     else:
         os.environ.pop("VERIF_SLOW_MODEL", None)
+    _scribble_env(cfg)
     evs = [{"e": "variant", "axes": ",".join(f"{k}={v}" for k, v in sorted(axes.items()))}]
+    from .plugins import Hang, _watchdog
+
     try:
-        with quiet():
+        with quiet(), _watchdog(900):
             cal = build(cfg, njobs=axes.get("njobs", 1), verbose=axes.get("verbose", False), folder=folder,
                         ctor_seeds=axes.get("ctor", False))
             ret = cal.calibrate(cfg["batches"])
         evs += observe(cal, ret)
+    except Hang:
+        evs.append({"e": "crash", "what": "calibrate() did not return (watchdog)"})
     except Exception as e:  # noqa: BLE001
         evs.append({"e": "crash", "what": f"{type(e).__name__}: {e}"[:200]})
     finally:
@@ -158,15 +178,23 @@ def run_split(cfg: dict, cuts: list[tuple[int, str]]) -> list[dict]:
     from .common import quiet
 
     folder = tempfile.mkdtemp(prefix="verif-c05-")
+    _scribble_env(cfg)
     evs = [{"e": "variant", "axes": "+".join(f"{n}{k[0]}" for n, k in cuts)}]
+    from .plugins import Hang, _watchdog
+
     try:
-        with quiet():
+        with quiet(), _watchdog(900):
+            if cfg.get("stale"):
+                other = {**cfg, "loss": [x for x in LOSSES if x != cfg["loss"]][cfg["seed"] % (len(LOSSES) - 1)], "seed": cfg["seed"] // 2 + 1}
+                build(other, folder=folder).calibrate(1)
             cal = build(cfg, folder=folder)
             for n, kind in cuts:
                 cal.calibrate(n)
                 if kind == "restore":
                     cal = Calibrator.restore_from_checkpoint(folder, model=ar_model)
         evs += observe(cal)
+    except Hang:
+        evs.append({"e": "crash", "what": "calibrate() did not return (watchdog)"})
     except Exception as e:  # noqa: BLE001
         evs.append({"e": "crash", "what": f"{type(e).__name__}: {e}"[:200]})
     finally:
